@@ -40,6 +40,11 @@ def gen_case(rnd, tier: str, i: Any) -> Dict[str, Any]:
             p.update(n_steps=rnd.choice([3, 5]), ops_per_step=(6, 12), max_depth=3)
         tr = gen_sim.gen_trace(rnd, **p)
         gen_sim.drop_events(rnd, tr, p_launch=rnd.choice([0, 0.1, 0.3]), p_kernel=rnd.choice([0, 0.1, 0.3]), p_sync=rnd.choice([0, 0.2]))
+        if rnd.random() < 0.3:
+            # ROCm-style host calls: the runtime call carries the stream *handle* as a hex string (not a stream number)
+            for k, e in enumerate(tr["traceEvents"]):
+                if k > 0 and e.get("ph") == "X" and e.get("cat") in ("cuda_runtime", "cuda_driver") and isinstance(e.get("args"), dict) and rnd.random() < 0.5:
+                    e["args"]["stream"] = rnd.choice(["0x0", "0x55d0c8a0", "0x7f3a00001c00"])
         files[f"rank{r}.json"] = tr
     return {"files": files, "cfg": {"mode": rnd.choice(["parse", "load"]), "mp": rnd.random() < 0.3, "inc_last": rnd.random() < 0.5,
                                     "parser": rnd.choice(drv.PARSER_VARIANTS)}}
